@@ -165,6 +165,7 @@ func (h *FBDNSDB) ServeDNSWithRCODE(ctx context.Context, w dns.ResponseWriter, r
 		return dns.RcodeServerFailure, nil
 	}
 	defer reader.Close()
+	verifYield(ctx, "acquired")
 	// State carries important information about the current request.
 	// It is also used to write the reply.
 	state := request.Request{W: w, Req: r}
@@ -206,6 +207,7 @@ func (h *FBDNSDB) ServeDNSWithRCODE(ctx context.Context, w dns.ResponseWriter, r
 		return dns.RcodeServerFailure, nil
 	}
 
+	verifYield(ctx, "located")
 	if loc.Mask > 0 {
 		h.stats.IncrementCounter("DNS_location.ecs")
 	} else if loc.LocID[0] == 0 && loc.LocID[1] == 0 {
@@ -251,6 +253,7 @@ func (h *FBDNSDB) ServeDNSWithRCODE(ctx context.Context, w dns.ResponseWriter, r
 		}
 	}
 
+	verifYield(ctx, "cache_checked")
 	// Set default answer payload
 	a := new(dns.Msg)
 	a.SetReply(r)
@@ -268,6 +271,7 @@ func (h *FBDNSDB) ServeDNSWithRCODE(ctx context.Context, w dns.ResponseWriter, r
 		return dns.RcodeServerFailure, err
 	}
 
+	verifYield(ctx, "auth_checked")
 	if !ns && !auth {
 		h.stats.IncrementCounter("DNS_response.refused")
 		m := new(dns.Msg)
@@ -313,6 +317,7 @@ func (h *FBDNSDB) ServeDNSWithRCODE(ctx context.Context, w dns.ResponseWriter, r
 		}
 	}
 
+	verifYield(ctx, "answered")
 	unpackedControlDomain, _, err := dns.UnpackDomainName(zoneCut, 0)
 	if err != nil {
 		glog.Errorf("Failed to unpack control domain name %s", err)
@@ -342,6 +347,7 @@ func (h *FBDNSDB) ServeDNSWithRCODE(ctx context.Context, w dns.ResponseWriter, r
 	weighted = db.AdditionalSectionForRecords(reader, a, loc, state.QClass(), a.Answer) || weighted
 	weighted = db.AdditionalSectionForRecords(reader, a, loc, state.QClass(), a.Ns) || weighted
 
+	verifYield(ctx, "before_cache_insert")
 	if h.cacheConfig.Enabled {
 		// Cache answer before we add ECS/options
 		var timeout int64
@@ -355,6 +361,7 @@ func (h *FBDNSDB) ServeDNSWithRCODE(ctx context.Context, w dns.ResponseWriter, r
 		}
 	}
 
+	verifYield(ctx, "before_write")
 	if r.IsEdns0() != nil {
 		o = new(dns.OPT)
 		o.Hdr.Name = "."
